@@ -2,6 +2,9 @@
 """Sensitivity runner: apply one edit to a scratch worktree of /repo, run pinned tests subset and the check."""
 import os, re, subprocess, sys, json, time
 
+VERIF = os.path.dirname(os.path.dirname(os.path.abspath(__file__)))
+SCRATCH = os.environ.get("SENS_SCRATCH", "/var/tmp")
+
 MUTS = {
  # name: (property list, file, [(old, new)], tests)
  "c08_m1_closure_lookahead_only": (["C08"], "compiler/front_end/lr1.py", [(
@@ -104,7 +107,7 @@ def main(names):
             r = {"diff": diff, "pinned_subset": tail, "pytest_s": round(time.time() - t0)}
             for prop in props:
                 t0 = time.time()
-                p = subprocess.run(["./check", prop, "--tier", "quick"], cwd="/work/lr1", env=dict(os.environ, VERIF_REPO=wt),
+                p = subprocess.run(["./check", prop, "--tier", "quick"], cwd=VERIF, env=dict(os.environ, VERIF_REPO=wt),
                                    stdout=subprocess.PIPE, stderr=subprocess.STDOUT)
                 out = p.stdout.decode()
                 viol = [l for l in out.split("\n") if l.startswith("VIOLATION")]
@@ -112,14 +115,14 @@ def main(names):
                 if viol:
                     rp = viol[0].split("replay=")[1].split()[0]
                     try:
-                        rec = json.load(open(os.path.join("/work/lr1", rp)))
+                        rec = json.load(open(os.path.join(VERIF, rp)))
                         r[prop]["replay_kind"] = rec.get("kind")
                         r[prop]["replay_input"] = str(rec.get("input"))[:160]
                         r[prop]["replay_tokens"] = str(rec.get("tokens"))[:80]
                         r[prop]["replay_observed"] = str(rec.get("observed"))[:200]
                     except Exception as e:
                         r[prop]["replay_err"] = repr(e)
-                    rr = subprocess.run(["./check", prop, "--replay", rp], cwd="/work/lr1", env=dict(os.environ, VERIF_REPO=wt),
+                    rr = subprocess.run(["./check", prop, "--replay", rp], cwd=VERIF, env=dict(os.environ, VERIF_REPO=wt),
                                         stdout=subprocess.PIPE, stderr=subprocess.STDOUT)
                     r[prop]["replay_out"] = rr.stdout.decode()[-400:]
                 if p.returncode == 2:
@@ -128,7 +131,7 @@ def main(names):
             print(name, json.dumps(r, indent=1), flush=True)
         finally:
             subprocess.run(["git", "-C", "/repo", "worktree", "remove", "--force", wt])
-    json.dump(res, open("/var/tmp/lr1scratch/mut_%d.json" % os.getpid(), "w"), indent=1)
+    json.dump(res, open(os.path.join(SCRATCH, "sens_lr1_%d.json" % os.getpid()), "w"), indent=1)
 
 if __name__ == "__main__":
     main(sys.argv[1:] or list(MUTS))
